@@ -566,7 +566,7 @@ func GetDisplayStyle(node *html.Node) string {
 		return "table-row"
 	case "tbody":
 		return "table-row-group"
-	case "meta", "script", "style", "link":
+	case "meta", "script", "style", "link", "template":
 		return "none"
 	}
 
